@@ -20,7 +20,7 @@ import re
 from .. import lexmodel, rx
 from ..progress import ParserModel
 from ..report import Run
-from ..source import AnalysisError, enum_members, walk_no_nested
+from ..source import AnalysisError, enum_members, norm, walk_no_nested
 from . import c01
 
 
@@ -349,6 +349,24 @@ def check_indent_units(run: Run) -> None:
     run.instance("R03.10", pm.relpath, f"{n_cmp} comparisons on indentation widths, none against a column", ok=True)
 
 
+def check_rebuilt_text_is_canonical(run: Run) -> None:
+    """R03.12: text the parser rebuilds from tokens for verbatim emission uses the canonical token values only"""
+    run.rule("R03.12", "text rebuilt from tokens is spelled canonically: the functions of the parser that turn tokens back into text which the emitter writes verbatim (holographic patterns, section annotations: _reconstruct_pattern_from_tokens, _token_to_str, _string_token_source) never read .normalized_from (the author's ASCII spelling of an operator; .raw of a NUMBER token - its lexeme - is a different matter and allowed) - so `|` and `∨` give the same canonical text", 2)
+    pm = run.project.mod("core.parser")
+    n = 0
+    for q, fi in pm.functions.items():
+        short = q.split(".")[-1]
+        if not (short.startswith("_reconstruct") or short in ("_token_to_str", "_string_token_source")):
+            continue
+        n += 1
+        bad = [a for a in walk_no_nested(fi.node) if isinstance(a, ast.Attribute) and a.attr in ("normalized_from", "original") and isinstance(a.ctx, ast.Load)]
+        run.instance("R03.12", pm.loc(fi.node), f"{q}: reads of spelling-carrying token attributes: {len(bad)}", ok=not bad)
+        for a in bad[:3]:
+            run.violation("R03.12", pm, q, a, f"{q} puts `{norm(a)}` - the spelling the author used - into text that the emitter writes verbatim: an ASCII alias (|, +, ~, <->) stays in the canonical text outside strings, and two inputs that differ only in the spelling of an operator no longer canonicalise to the same bytes")
+    if n < 2:
+        raise AnalysisError(f"only {n} token-to-text function(s) found in the parser (_reconstruct_pattern_from_tokens, _token_to_str expected)")
+
+
 def check_indent_emission(run: Run) -> None:
     """R03.11: an INDENT token stands in front of content only, and measures the whole run of leading spaces"""
     import re._constants as sc  # type: ignore[import-not-found]
@@ -415,6 +433,7 @@ def check(run: Run) -> None:
     check_emitter_profile(run, lm)
     c01.check_indent(run, "R03.5")
     check_indent_emission(run)
+    check_rebuilt_text_is_canonical(run)
     check_blank_lines(run, pmodel)
     check_structure_detection(run, lm)
     check_optional_envelope(run)
